@@ -288,17 +288,23 @@ NumDescs == {EmbedObst(o) : o \in NumObst} \cup {EmbedHdr(h) : h \in NumHdr} \cu
 
 (* mixed: every component drawn at random; lanelet 2 references sign 21 and light 31 so that any draw is well formed *)
 ReId(o, id) == [o EXCEPT !.id = id]
+OkObst == {o \in ObstaclePool : WellFormed(EmbedObst(o))}
+OkObstByRole == [r \in {"static", "dynamic"} |-> {o \in OkObst : o.role = r}]
+OkPP == {p \in PPPool : WellFormed(EmbedPP(p))}
+OkLanelet == {la \in LaneletPool : WellFormed(EmbedLanelet(la))}
+OkSign == {sc \in SignPool : WellFormed(EmbedSign(sc))}
+OkLight == {t \in LightPool : WellFormed(EmbedLight(t))}
+OkInter == {x \in InterPool : WellFormed(EmbedInter(x))}
+OkHdr == {h \in HeaderPool : WellFormed(EmbedHdr(h))}
 MixedDesc(i) ==
-  LET sc == RandomElement(SignPool)
-      obs == RandomElement(ObstaclePool)
-      byRole(r) == {o \in ObstaclePool : o.role = r}
+  LET sc == RandomElement(OkSign)
       l2 == [DefLanelet(2) EXCEPT !.signs = <<21>>, !.lights = <<31>>]
-  IN [hdr |-> [RandomElement(HeaderPool) EXCEPT !.cid = sc[2]],
-      lanelets |-> <<RandomElement(LaneletPool), l2, DefLanelet(3)>>,
-      signs |-> <<sc[1]>>, lights |-> <<RandomElement(LightPool)>>, inters |-> <<RandomElement(InterPool)>>,
-      obstacles |-> <<ReId(RandomElement(byRole("static")), 51), ReId(RandomElement(byRole("dynamic")), 52), ReId(obs, 53),
-                      ReId(RandomElement(byRole("dynamic")), 54)>>,
-      pps |-> <<RandomElement(PPPool), ReId(RandomElement(PPPool), 92)>>]
+  IN [hdr |-> [RandomElement(OkHdr) EXCEPT !.cid = sc[2]],
+      lanelets |-> <<RandomElement(OkLanelet), l2, DefLanelet(3)>>,
+      signs |-> <<sc[1]>>, lights |-> <<RandomElement(OkLight)>>, inters |-> <<RandomElement(OkInter)>>,
+      obstacles |-> <<ReId(RandomElement(OkObstByRole["static"]), 51), ReId(RandomElement(OkObstByRole["dynamic"]), 52),
+                      ReId(RandomElement(OkObst), 53), ReId(RandomElement(OkObstByRole["dynamic"]), 54)>>,
+      pps |-> <<RandomElement(OkPP), ReId(RandomElement(OkPP), 92)>>]
 
 Cases ==
   CASE Component = "obstacle"     -> {Case("obstacle", 4, EmbedObst(o)) : o \in ObstaclePool}
